@@ -135,7 +135,7 @@ Fixpoint fits (pc : bool) (k : nat) (e : expr) : Prop :=
           k <= 6 /\ fits pc 7 l /\ ok pc l TMatch = true /\
           match r with EStrRegex _ => True | _ => fits pc 7 r /\ not_regex_start r end
       | BEq | BNe | BLt | BLe | BGt | BGe =>
-          k <= 7 /\ (pc = true -> op <> BGt) /\ fits pc 8 l /\ ok pc l TEquals = true /\ fits pc 8 r
+          k <= 7 /\ (pc = true -> op <> BGt) /\ fits pc 8 l /\ ok pc l (hd_tok (binop_tok op)) = true /\ fits pc 8 r
       | BConcat =>
           k <= 8 /\ fits pc 8 l /\ fits pc 9 r /\
           concat_start (first_tok r) = true /\ tok_cont pc (first_tok r) <= 9 /\ ok pc l (first_tok r) = true
